@@ -121,8 +121,11 @@ def stops_xml(r, pal, n=None):
         if n >= 4 and r.random() < 0.5:
             offs[2] = offs[1]  # hard stop
     out = ""
-    for o in offs:
+    fade = r.random()  # fade-in / fade-out gradients: an end stop that is fully transparent
+    for k_, o in enumerate(offs):
         so = f' stop-opacity="{r.uniform(0.2,1):.2f}"' if r.random() < 0.3 else ""
+        if (fade < 0.1 and k_ == 0) or (0.07 < fade < 0.15 and k_ == len(offs) - 1):
+            so = ' stop-opacity="0"'
         ostr = f"{o*100:.1f}%" if r.random() < 0.25 else f3(o)
         out += f'<stop offset="{ostr}" stop-color="{rnd_color(r, pal)}"{so}/>'
     return out
@@ -233,12 +236,13 @@ def svg_source(r, gi=0, pal=None, vb=None, max_shapes=4, gradients=True, groups=
     gcount = [0]
     meta = {"viewBox": [vbx, vby, vbw, vbh], "shapes": 0, "gradients": 0, "groups": 0, "kinds": []}
 
-    def emit(depth):
+    def emit(depth, shared=None):
         out = ""
         nsh = r.randint(2 if depth else 1, max_shapes)
         for _ in range(nsh):
             if groups and depth < 2 and r.random() < 0.2:
-                inner = emit(depth + 1)
+                # a third of the groups paint all their (overlapping) children with one flat colour, as artwork does
+                inner = emit(depth + 1, rnd_color(r, pal) if r.random() < 0.35 else None)
                 meta["groups"] += 1
                 out += f'<g opacity="{r.uniform(0.2,0.9):.2f}">{inner}</g>'
                 continue
@@ -262,6 +266,8 @@ def svg_source(r, gi=0, pal=None, vb=None, max_shapes=4, gradients=True, groups=
                 fill = rnd_color(r, pal)
             k = r.random()
             op = f' opacity="{r.uniform(0.2,0.95):.2f}"' if k < 0.25 else (f' fill-opacity="{r.uniform(0.2,0.95):.2f}"' if k < 0.32 and "STROKE" not in el else "")
+            if shared is not None:
+                fill, op = shared, ""
             tr = ""
             if tr0 or r.random() < 0.25:
                 kk = r.random()
@@ -363,7 +369,7 @@ def recurrence_set(r, nglyphs=2, pal=None, vb_choices=(64, 128, 1000), same_vb=T
     return svgs, meta
 
 
-def paint_varied_reuse_set(r, nglyphs=3):
+def paint_varied_reuse_set(r, nglyphs=3, defaults=False):
     """One prototype outline placed by pure translation in several glyphs, every occurrence with its own fill AND its own
     opacity (so shared-shape encodings must carry more than one per-use paint attribute)."""
     vb = 100
@@ -372,11 +378,17 @@ def paint_varied_reuse_set(r, nglyphs=3):
     svgs = []
     for g in range(nglyphs):
         body = ""
-        for c in range(r.randint(1, 3)):
+        for c in range(r.randint(2 if (defaults and g == 0) else 1, 3)):
             dx, dy = r.randint(0, 40), r.randint(0, 40)
             fill = "#%02x%02x%02x" % (r.randint(1, 255), r.randint(0, 255), r.randint(0, 255))
             op = f' opacity="{r.choice([0.25, 0.3, 0.5, 0.75, 0.8])}"' if r.random() < 0.85 else ""
             tr = f' transform="translate({dx} {dy})"' if (g or c) else ""
+            if defaults and r.random() < (0.15 if (g == 0 and c == 0) else 0.45):
+                # an occurrence left at the defaults (black, opaque): nothing for a <use> to say
+                body += f'<path d="{d}"{tr}/>' if r.random() < 0.5 else f'<path d="{d}" fill="black"{tr}/>'
+                continue
+            if defaults and r.random() < 0.2:
+                op = ""
             body += f'<path d="{d}" fill="{fill}"{op}{tr}/>'
         svgs.append(f'<svg xmlns="http://www.w3.org/2000/svg" viewBox="0 0 {vb} {vb}">{body}</svg>')
     return svgs
